@@ -3,11 +3,13 @@ import struct
 from fractions import Fraction
 from tools import common as C, wire, oracle as O
 
-LEAN_MODULES = ["SCP.C18"]
+LEAN_MODULES = ["SCP.C18", "SCP.C18Api"]
 THEOREMS = ["SCP.C18." + t for t in """addRule_false_iff addRule_false_noop deleteRule_false_iff deleteRule_false_noop lang_setLang step_rules
 run_rules run_frame applyOps_base applyOps_registrations history_eq_survivors tryPats_decline decline_noop api_effect echo_binds_by_name
 const_returns addDynamicType_false_iff addDynamicType_false_noop addDynamicTypeItem_false_iff addDynamicTypeItem_false_noop
-user_family_converts""".split()]
+user_family_converts""".split()] + ["SCP.C18Api." + t for t in """addRuleText_unknown_language addRuleText_known_language
+addRuleText_false_noop addRuleText_false_iff addRuleText_other_languages addDynamicTypeItemText_unknown_family addDynamicTypeItemText_known_family
+addDynamicTypeItemText_false_noop""".split()]
 RULE = ("histories of 5-60 calls: add_rule (5 canned behaviours: constant, decline, echo a field, sum of the number fields, coin; 1-2 patterns "
         "from a pool incl. overlapping ones; languages en, tr and an unknown one; the same name twice; the same patterns under two names), "
         "delete_rule (existing / deleted / unknown names, unknown language), add_dynamic_type (new / duplicate), add_dynamic_type_item (chains "
@@ -15,11 +17,11 @@ RULE = ("histories of 5-60 calls: add_rule (5 canned behaviours: constant, decli
         "oracles: (1) every return value against the specification; (2) at every checkpoint the probe lines evaluate exactly as on a FRESH "
         "calculator on which only the surviving non-declining rules and the accepted families were registered in the same order; (3) constant / "
         "echo rules produce their token with fields bound by name; two rules with a match each are both applied in every registration order; rules registered for tr / en whose patterns hold a word-group field or an operator word of one language: a line spelled like the pattern is rewritten, a line with the other language's group word is as without the rule (also as histories on the model); (4) user families convert by the exact rational factor of their chain; tie: "
-        "the whole history is replayed on the Lean model (return values and every line result); non-trivial = history containing a deletion or a "
+        "the whole history is replayed on the Lean model FROM ITS TEXTS — the model tokenises the patterns itself (rules in their language, unit items in en: SC.Api) and lexes every line (return values and every line result); non-trivial = history containing a deletion or a "
         "rejected call; distinct = distinct histories")
 ASSUMPTIONS = ["rule behaviours are the six canned RuleTrait implementations (constant, decline, echo a field, sum, money, accept-only-a-given-word) shared by the harness and the model (ApiKind)",
                "patterns whose own output matches them again (non-terminating rewriting) are not generated"]
-TRUSTED = ["pattern tokenisation is the implementation's own (lex hook) and handed to the model"]
+TRUSTED = []
 
 POOL = [  # (pattern, matching line per language or None, fields)
     ("{NUMBER:a} foo {NUMBER:b}", "3 foo 4", ["a", "b"]),
@@ -168,34 +170,28 @@ def canon(r):
     return wire.impl_line_canon(l, with_tokens=False)[:3]
 
 
-def model_requests(H, lexed):
-    """lexed: dict text->(lang)->tokens"""
+def model_requests(H, lexed=None):
+    """the history as requests to the model driver: registrations from the pattern TEXTS (the model tokenises them itself, the
+    patterns of a rule in the rule's language — SC.Api), evaluations from the line texts (model lexer, then the evaluation layers)"""
     req = []
     idx = []
     for i, op in enumerate(H):
         o = op["op"]
         if o == "rule_add":
-            pats = [wire.enc_pattern(lexed[(op["lang"] if op["lang"] in ("en", "tr") else "en", p)]) for p in op["patterns"]]
-            if any(p is None for p in pats):
-                req.append("bad")
-            else:
-                a1 = bits(op["v"]) if op["kind"] in ("const", "coin", "when") else (wire.hx(op["field"]) if op["kind"] == "echo" else "-")
-                a2 = (wire.hx(op["field"]) + ":" + wire.hx(op["word"])) if op["kind"] == "when" else op.get("cur", "-")
-                req.append("\t".join(["rule_add", op["lang"], wire.hx(op["name"]), op["kind"], a1, a2, "|".join(pats)]))
+            a1 = bits(op["v"]) if op["kind"] in ("const", "coin", "when") else (wire.hx(op["field"]) if op["kind"] == "echo" else "-")
+            a2 = (wire.hx(op["field"]) + ":" + wire.hx(op["word"])) if op["kind"] == "when" else op.get("cur", "-")
+            req.append("\t".join(["rule_add_text", op["lang"], wire.hx(op["name"]), op["kind"], a1, a2, "|".join(wire.hx(p) for p in op["patterns"])]))
         elif o == "rule_del":
             req.append("\t".join(["rule_del", op["lang"], wire.hx(op["name"])]))
         elif o == "dtype_add":
             req.append("dtype_add\t" + wire.hx(op["name"]))
         elif o == "dtype_item":
-            pats = [wire.enc_pattern(lexed[("en", p)]) for p in op["parse"]]
-            req.append("\t".join(["dtype_item", wire.hx(op["name"]), str(op["index"]), wire.hx(op["format"]), wire.hx(op["up"]), wire.hx(op["down"]),
-                                  ".".join(wire.hx(n) for n in op["names"]), "-", "|".join(pats)]))
+            req.append("\t".join(["dtype_item_text", wire.hx(op["name"]), str(op["index"]), wire.hx(op["format"]), wire.hx(op["up"]), wire.hx(op["down"]),
+                                  ".".join(wire.hx(n) for n in op["names"]), "-", "|".join(wire.hx(p) for p in op["parse"])]))
         else:
-            toks = lexed[(op["lang"], op["text"])]
-            parts = [wire.enc_info_in(t) for t in toks]
             req.append("newvars")
             idx.append(None)
-            req.append("line\t" + op["lang"] + "\t" + ("unsupported," if any(p is None for p in parts) else " ".join(parts)))
+            req.append("text\t" + op["lang"] + "\t" + wire.hx(op["text"]))
         idx.append(i)
     return req, idx
 
@@ -278,20 +274,7 @@ def run(ctx, model_ok):
                                          "ops": [{"op": "reset"}] + survivors_ops(st) + [{"op": "exec", "lang": "en", "text": f"8 {wa} to {wb}"}]})
         # --- tie: the history on the Lean model ------------------------------------------------------
         if model_ok and hi < ctx.n(120, 1200):
-            texts = set()
-            for op in H:
-                if op["op"] == "rule_add":
-                    texts |= {(op["lang"] if op["lang"] in ("en", "tr") else "en", p) for p in op["patterns"]}
-                elif op["op"] == "dtype_item":
-                    texts |= {("en", p) for p in op["parse"]}
-                elif op["op"] == "exec":
-                    texts.add((op["lang"], op["text"]))
-            texts = sorted(texts)
-            # patterns are tokenised by the implementation at registration time: lex them in the history's own state order
-            lx = C.run_impl([{"op": "reset"}] + [{"op": "lex", "lang": l, "text": t} for (l, t) in texts])[1:]
-            lexed = {k: r.get("toks", []) for k, r in zip(texts, lx)}
-            # line tokens depend on nothing registered (lexer only), so one lex per text is enough
-            req, idx = model_requests(H, lexed)
+            req, idx = model_requests(H)
             ans = C.run_model([f"now\t{now['secs']}", "reset"] + req)[2:]
             for a, i in zip(ans, idx):
                 if i is None:
